@@ -567,7 +567,16 @@ static std::string run_program(const std::string &line)
                     }
                 } else if (c == "fdm" || c == "fdk") {
                     int i = std::stoi(t.at(1)), j = std::stoi(t.at(2));
-                    if (!slot_ok(i) || !slot_ok(j) || m.v[j].is_null() || i == j)
+                    // Add::from_dict wants a canonical dictionary: the key is a term (not a number, not a
+                    // sum, no numeric coefficient of its own)
+                    bool valid = slot_ok(i) && slot_ok(j) && !m.v[j].is_null() && i != j;
+                    if (valid) {
+                        const Basic &key = *m.v[j];
+                        if (is_a_Number(key) || is_a<Add>(key)
+                            || (is_a<Mul>(key) && !down_cast<const Mul &>(key).get_coef()->is_one()))
+                            valid = false;
+                    }
+                    if (!valid)
                         note = "SKIP";
                     else {
                         RCP<const Number> coef = integer(integer_class(t.at(3)));
@@ -977,6 +986,11 @@ int main()
     std::string line;
     while (std::getline(std::cin, line))
         lines.push_back(line);
+    if (getenv("RCP_NOFORK")) { // debugging aid: run in-process so that a sanitizer report reaches stderr
+        for (const std::string &l : lines)
+            std::cout << run_line(l) << std::endl;
+        return 0;
+    }
     const size_t BATCH = 20;
     size_t pos = 0;
     while (pos < lines.size()) {
